@@ -15,6 +15,9 @@ func init() {
 	register(&Rule{Name: "cache.recursion", Floor: 3,
 		Doc: "AddValidator recurses only on a PubkeyCache literal built in the same branch with parent: <receiver> and trustedParentCount set to the conflicting index; `parent` is assigned nowhere else (the parent chain is acyclic); the append is dominated by the next-index check whose failure returns an error; the no-op outcome returns the receiver",
 		Run: ruleCacheRecursion})
+	register(&Rule{Name: "cache.units", Floor: 2,
+		Doc: "in PubkeyCache validator indices are absolute while positions in idx2pub are relative to trustedParentCount: every position into idx2pub subtracts trustedParentCount, and every index stored into pub2idx is an absolute one (the index parameter, or a position with trustedParentCount added back), never a bare position/length",
+		Run: ruleCacheUnits})
 	register(&Rule{Name: "cache.deposit", Floor: 2,
 		Doc: "deposit processing treats a pubkey-cache hit as an existing validator only when the returned index is below the state's validator count, and stores the cache handle returned by AddValidator back into the epochs context on the path that added a validator",
 		Run: ruleCacheDeposit})
@@ -380,5 +383,112 @@ func ruleCacheDeposit(c *Ctx) {
 		c.bad("ProcessDeposit.cache-upkeep", cacheAdd.Pos(), "cache is extended before the state accepted the validator")
 	default:
 		c.ok("ProcessDeposit.cache-upkeep", cacheAdd.Pos(), "state.AddValidator, then cache.AddValidator, result stored into epc.ValidatorPubkeyCache")
+	}
+}
+
+func ruleCacheUnits(c *Ctx) {
+	pk, ms := pubkeyCacheMethods(c.P)
+	info := pk.TypesInfo
+	checkStore := func(fn string, recv types.Object, fd *ast.FuncDecl, val ast.Expr, pos token.Pos) {
+		key := "PubkeyCache." + fn + ":pub2idx=" + types.ExprString(val)
+		// resolve locals to their latest definition
+		var derivesLen, addsTrusted func(e ast.Expr, depth int) bool
+		derivesLen = func(e ast.Expr, depth int) bool {
+			if depth > 5 {
+				return false
+			}
+			found := false
+			ast.Inspect(e, func(n ast.Node) bool {
+				switch x := n.(type) {
+				case *ast.CallExpr:
+					if id, ok := x.Fun.(*ast.Ident); ok && id.Name == "len" && len(x.Args) == 1 && recv != nil && isRecvField(info, x.Args[0], recv, "idx2pub") {
+						found = true
+					}
+				case *ast.Ident:
+					if recv != nil && paramIndex(fd, info, info.Uses[x]) < 0 {
+						if rhs, _ := lastDefBefore(info, fd, info.Uses[x], pos); rhs != nil && derivesLen(rhs, depth+1) {
+							found = true
+						}
+					}
+				}
+				return true
+			})
+			return found
+		}
+		addsTrusted = func(e ast.Expr, depth int) bool {
+			if depth > 5 {
+				return false
+			}
+			found := false
+			ast.Inspect(e, func(n ast.Node) bool {
+				switch x := n.(type) {
+				case *ast.SelectorExpr:
+					if recv != nil && isRecvField(info, x, recv, "trustedParentCount") {
+						found = true
+					}
+				case *ast.Ident:
+					if recv != nil && paramIndex(fd, info, info.Uses[x]) < 0 {
+						if rhs, _ := lastDefBefore(info, fd, info.Uses[x], pos); rhs != nil && addsTrusted(rhs, depth+1) {
+							found = true
+						}
+					}
+				}
+				return true
+			})
+			return found
+		}
+		if derivesLen(val, 0) && !addsTrusted(val, 0) {
+			c.bad(key, pos, "pub2idx receives %s, a position in this level's idx2pub (relative to trustedParentCount), where the absolute validator index is required: on a cache forked at index k > 0 every pubkey->index answer is short by k", types.ExprString(val))
+		} else {
+			c.ok(key, pos, "absolute validator index")
+		}
+	}
+	for _, mn := range sortedKeys(ms) {
+		fd := ms[mn]
+		if len(fd.Recv.List[0].Names) != 1 {
+			continue
+		}
+		recv := info.Defs[fd.Recv.List[0].Names[0]]
+		ast.Inspect(fd.Body, func(n ast.Node) bool {
+			switch x := n.(type) {
+			case *ast.IndexExpr:
+				if !isRecvField(info, x.X, recv, "idx2pub") {
+					return true
+				}
+				key := "PubkeyCache." + mn + ":idx2pub[" + types.ExprString(x.Index) + "]"
+				be, ok := ast.Unparen(x.Index).(*ast.BinaryExpr)
+				if ok && be.Op == token.SUB && isRecvField(info, be.Y, recv, "trustedParentCount") {
+					c.ok(key, x.Pos(), "position relative to trustedParentCount")
+				} else {
+					c.bad(key, x.Pos(), "idx2pub is positioned with %s, which is not `index - trustedParentCount`: on a forked cache the wrong entry is addressed", types.ExprString(x.Index))
+				}
+			case *ast.AssignStmt:
+				for i, l := range x.Lhs {
+					if ix, ok := ast.Unparen(l).(*ast.IndexExpr); ok && isRecvField(info, ix.X, recv, "pub2idx") && i < len(x.Rhs) {
+						checkStore(mn, recv, fd, x.Rhs[i], x.Pos())
+					}
+				}
+			}
+			return true
+		})
+	}
+	// constructors filling a fresh cache (NewPubkeyCache): trustedParentCount is 0 there, positions are absolute
+	for _, name := range []string{"NewPubkeyCache"} {
+		_, fd := c.P.findFunc("eth2/beacon/common", name)
+		if fd == nil {
+			continue
+		}
+		ast.Inspect(fd.Body, func(n ast.Node) bool {
+			if as, ok := n.(*ast.AssignStmt); ok {
+				for i, l := range as.Lhs {
+					if ix, ok := ast.Unparen(l).(*ast.IndexExpr); ok && i < len(as.Rhs) {
+						if sel, ok := ast.Unparen(ix.X).(*ast.SelectorExpr); ok && sel.Sel.Name == "pub2idx" {
+							c.ok("PubkeyCache."+name+":pub2idx="+types.ExprString(as.Rhs[i]), as.Pos(), "root cache (trustedParentCount 0): loop index is the absolute index")
+						}
+					}
+				}
+			}
+			return true
+		})
 	}
 }
